@@ -52,7 +52,7 @@ vars == <<cfg, in, abs, pc, ai, cj, errs, oks, verdict, ret, step>>
 Assn(ii, nb, nooa, confs) == [ii |-> ii, nb |-> nb, nooa |-> nooa, confs |-> confs]
 
 \* Family A: one assertion, one confirmation, full 5-point lattice on all five instants
-InputsA == { [entry |-> "xml", artII |-> "in1", respII |-> r, assns |-> << Assn(a, nb, no, <<c>>) >>] :
+InputsA == { [entry |-> "xml", idpInit |-> FALSE, artII |-> "in1", respII |-> r, assns |-> << Assn(a, nb, no, <<c>>) >>] :
                r \in Classes, a \in Classes, nb \in Classes, no \in Classes, c \in Classes }
 
 \* Family B: 1..2 assertions x 1..3 confirmations on the reduced lattice, every position
@@ -63,23 +63,29 @@ AssnsB == UNION { { Assn(a, nb, no, cs) : a \in Classes2, nb \in Classes2, no \i
 B(x) == IF x = "out1" THEN 1 ELSE 0
 OneOff == { a \in AssnsB : B(a.ii) + B(a.nb) + B(a.nooa)
                            + Cardinality({ j \in DOMAIN a.confs : a.confs[j] = "out1" }) <= 1 }
-InputsB == { [entry |-> "xml", artII |-> "in1", respII |-> "in1", assns |-> <<a>>] : a \in AssnsB }
-           \cup { [entry |-> "xml", artII |-> "in1", respII |-> "in1", assns |-> <<a, b>>] : a \in OneOff, b \in OneOff }
+InputsB == { [entry |-> "xml", idpInit |-> FALSE, artII |-> "in1", respII |-> "in1", assns |-> <<a>>] : a \in AssnsB }
+           \cup { [entry |-> "xml", idpInit |-> FALSE, artII |-> "in1", respII |-> "in1", assns |-> <<a, b>>] : a \in OneOff, b \in OneOff }
 
 \* Family C: absent instants, one at a time and all together
-InputsC == { [entry |-> "xml", artII |-> "in1", respII |-> r, assns |-> << Assn(a, nb, no, <<c>>) >>] :
+InputsC == { [entry |-> "xml", idpInit |-> FALSE, artII |-> "in1", respII |-> r, assns |-> << Assn(a, nb, no, <<c>>) >>] :
                r \in {"in1", "none"}, a \in {"in1", "none"}, nb \in {"in1", "none"},
                no \in {"in1", "none"}, c \in {"in1", "none"} }
 
 \* Family D: the Response travels inside an ArtifactResponse (signed: "artS", or unsigned with a signed
 \* Response inside: "artU"); the inner Response's own IssueInstant still counts
-InputsD == { [entry |-> e, artII |-> ai_, respII |-> r, assns |-> << Assn(a, nb, no, <<c>>) >>] :
+InputsD == { [entry |-> e, idpInit |-> FALSE, artII |-> ai_, respII |-> r, assns |-> << Assn(a, nb, no, <<c>>) >>] :
                e \in {"artS", "artU"}, ai_ \in {"farIn", "in1", "out1"}, r \in Classes,
                a \in Classes2, nb \in Classes2, no \in Classes2, c \in Classes2 }
+
+\* Family E: the SP is configured with AllowIDPInitiated (the windows do not depend on it), two confirmations,
+\* the second one possibly not a bearer confirmation (harness: odd positions use holder-of-key / no Method)
+InputsE == { [entry |-> "xml", idpInit |-> TRUE, artII |-> "in1", respII |-> r, assns |-> << Assn(a, nb, no, <<c1, c2>>) >>] :
+               r \in Classes2, a \in Classes2, nb \in Classes2, no \in {"in1", "farIn"}, c1 \in Classes2, c2 \in Classes2 }
 
 Inputs == CASE Family = "A" -> InputsA [] Family = "B" -> InputsB [] Family = "C" -> InputsC
             [] Family = "AB" -> InputsA \cup InputsB [] Family = "ABC" -> InputsA \cup InputsB \cup InputsC
             [] Family = "ABCD" -> InputsA \cup InputsB \cup InputsC \cup InputsD
+            [] Family = "ABCDE" -> InputsA \cup InputsB \cup InputsC \cup InputsD \cup InputsE
 
 AbsOf(i, s) == [artII |-> AbsII(i.artII, s), respII |-> AbsII(i.respII, s),
                 assns  |-> [k \in DOMAIN i.assns |->
@@ -185,7 +191,8 @@ StrictResp == Now <  abs.respII + cfg.mid
 
 MustReject == ~HasNone /\ (~WithinResp \/ \A k \in DOMAIN abs.assns : ~WithinAssn(abs.assns[k]))
 ArtFresh   == in.entry = "xml" \/ Now < abs.artII + cfg.mid
-MustAccept == ~HasNone /\ ArtFresh /\ StrictResp /\ \A k \in DOMAIN abs.assns : StrictAssn(abs.assns[k])
+\* (a response with several assertions, all of them inside, is left open: an SP may insist on exactly one)
+MustAccept == ~HasNone /\ ArtFresh /\ StrictResp /\ Len(abs.assns) = 1 /\ \A k \in DOMAIN abs.assns : StrictAssn(abs.assns[k])
 Class == IF MustReject THEN "MustReject" ELSE IF MustAccept THEN "MustAccept" ELSE "DontCare"
 
 \* what the statement demands of the design
